@@ -11,7 +11,7 @@ CONSTANTS
   FBug = "none"
   XMaxItems = 2
   XLits <- F2XLits
-  XNames <- F2XNames
+  XNames <- T2XNames
   XChains <- T2XChains
   XConvs <- T2XConvs
   XSpecs <- T2XSpecs
